@@ -84,7 +84,11 @@ def split_byte_interval(
 
     # Group overlapping blocks so they can be processed as a unit.
     groups: List[BlockGroup] = []
-    for block in sorted(interval.blocks, key=lambda b: b.offset):
+    # Blocks at the same offset are ordered by size so that the grouping does
+    # not depend on the iteration order of the interval's block set; a
+    # zero-sized block gets a group of its own, in front of the block that
+    # starts where it sits.
+    for block in sorted(interval.blocks, key=lambda b: (b.offset, b.size)):
         block_end = block.offset + block.size
         if groups == [] or groups[-1].end <= block.offset:
             groups.append(BlockGroup(block.offset, block_end, [block]))
